@@ -29,6 +29,7 @@ example : sendRecentFalseConds = ["cbd.time+data_model.MaxShortWindow+data_model
 example : sendRecentFinalReturn = "true" := rfl
 example : sendHistoricRetryConds = ["shardReplica == nil", "err != nil", "!respV3.IsSetDiscard()"] := rfl
 example : sendHistoricEraseAfterDiscardGuard = true := rfl
+example : condSignalSites = ["flushBuckets", "appendHistoricBucketsToSend", "DisableNewSends"] := rfl
 
 /-! ### aggregator handler: when does it answer `discard` at once -/
 
@@ -210,7 +211,7 @@ theorem diskPut_sec (a : Agent) (c : Cbd) : (diskPut a c).2.sec = c.sec := by
   unfold diskPut; split <;> rfl
 
 theorem diskPut_keeps (a : Agent) (c : Cbd) :
-    (diskPut a c).1.dropped = a.dropped ∧ (diskPut a c).1.memFull = a.memFull ∧ (diskPut a c).1.hist = a.hist ∧
+    (diskPut a c).1.dropped = a.dropped ∧ (diskPut a c).1.memSize = a.memSize ∧ (diskPut a c).1.hist = a.hist ∧
     (diskPut a c).1.flights = a.flights ∧ (diskPut a c).1.disk = a.disk := by
   unfold diskPut; split <;> simp
 
@@ -227,13 +228,13 @@ theorem toHistoric_holds (a : Agent) (c : Cbd) :
   · left; simp [h1, hs]
 
 /-- with a disk cache the memory limit never loses a second: it is dropped only from memory -/
-theorem toHistoric_disk_holds (a : Agent) (c : Cbd) (hd : a.disk = true) :
+theorem toHistoric_disk_holds (a : Agent) (c : Cbd) (hd : a.disk = true) (hok : a.diskOk = true) :
     c.sec ∈ (toHistoric a c).hist.map (·.sec) := by
   unfold toHistoric appendHist
   have hs := diskPut_sec a c
   have hid : ((diskPut a c).2.id == 0) = false := by
     unfold diskPut canPut
-    by_cases h : (c.id == 0) = true <;> simp [hd, h]
+    by_cases h : (c.id == 0) = true <;> simp [hd, hok, h]
   by_cases h1 : overflows (diskPut a c).1 (diskPut a c).2 = true
   · simp [h1, hid, hs]
   · simp [h1, hs]
@@ -333,6 +334,110 @@ example :
     let s1 := (step s (.recent 203)).1
     (s1.ag.recs.map (·.sec), ((agentContinue s1 ⟨1, ⟨203, 1, true⟩, false, 2, false⟩ false true).1.ag.recs.map (·.sec)),
      ((agentContinue s1 ⟨1, ⟨203, 1, true⟩, false, 2, false⟩ false false).1.ag.hist.map (·.sec))) = ([203], [], [203]) := by decide
+
+/-! ### agent: the memory limit of the historic queue is accounted exactly -/
+
+/-- bytes (units) of bucket data held by the queue -/
+def memCount (l : List Cbd) : Nat := (l.map sz).sum
+
+/-- historicBucketsDataSize equals what the queue really holds (plus the ballast input) -/
+def memExact (a : Agent) : Prop := a.memSize = a.ballast + memCount a.hist
+
+theorem memCount_append (l : List Cbd) (c : Cbd) : memCount (l ++ [c]) = memCount l + sz c := by
+  simp [memCount]
+
+/-- appendHistoricBucketsToSend keeps the counter exact: a second queued without its data adds nothing -/
+theorem appendHist_exact (a : Agent) (c : Cbd) (h : memExact a) : memExact (appendHist a c) := by
+  unfold memExact at *
+  unfold appendHist
+  by_cases h1 : overflows a c = true
+  · by_cases h2 : (c.id == 0) = true
+    · simp [h1, h2, h]
+    · simp [h1, h2, h, memCount_append, sz]
+  · simp [h1, h, memCount_append]; omega
+
+/-- …hence a second is thrown away as "memory limit" only when the data really queued (plus ballast) plus its own size
+exceeds the limit — the only memory drop the property allows -/
+theorem appendHist_drop_legit (a : Agent) (c : Cbd) (h : memExact a)
+    (hd : (appendHist a c).dropped ≠ a.dropped) : a.ballast + memCount a.hist + sz c > memLimit ∧ c.id = 0 := by
+  unfold appendHist at hd
+  by_cases h1 : overflows a c = true
+  · by_cases h2 : (c.id == 0) = true
+    · unfold overflows at h1
+      unfold memExact at h
+      constructor
+      · have := of_decide_eq_true h1; omega
+      · simpa using h2
+    · simp [h1, h2] at hd
+  · simp [h1] at hd
+
+example : (appendHist { initAgent false false 0 0 with memSize := 1000, ballast := 1000 } ⟨7, 0, true⟩).dropped = [7] := by decide
+example : (appendHist { initAgent false false 0 0 with memSize := 999, ballast := 999 } ⟨7, 0, true⟩).dropped = [] := by decide
+
+/-- the seeded variant (size added even when the data was dropped from memory) breaks exactness -/
+example : ¬ memExact (let a := appendHist { initAgent true false 0 0 with memSize := 1000, ballast := 1000 } ⟨7, 3, true⟩
+                      { a with memSize := a.memSize + 1 }) := by
+  unfold memExact; decide
+
+/-! ### agent: wake-up discipline of the historic senders -/
+
+open Wake in
+/-- some consumer exists, and whenever the head of the queue can be popped one of them is runnable -/
+def wakeInv (s : W) : Bool := decide (0 < s.awake + s.asleep) && (!poppable s || decide (0 < s.awake))
+
+open Wake in
+theorem signal_awake (s : W) (h : 0 < s.awake + s.asleep) : 0 < (signal s).awake ∧ 0 < (signal s).awake + (signal s).asleep := by
+  unfold signal
+  split
+  · constructor <;> (dsimp only; omega)
+  · constructor <;> omega
+
+open Wake in
+/-- with the signalling sites of the current code (flushBuckets on every new second, appendHistoricBucketsToSend on every
+append) the invariant is preserved by every step, i.e. holds for every interleaving of clock, appends and consumers -/
+theorem wake_step (s : W) (op : WOp) (h : wakeInv s = true) : wakeInv (step true s op) = true := by
+  unfold wakeInv at h ⊢
+  simp only [Bool.and_eq_true, decide_eq_true_eq, Bool.or_eq_true, Bool.not_eq_true'] at h ⊢
+  obtain ⟨htot, hp⟩ := h
+  cases op with
+  | second =>
+    have := signal_awake { s with clock := s.clock + 1 } htot
+    simp only [Wake.step, if_true]
+    exact ⟨this.2, Or.inr this.1⟩
+  | append t =>
+    have := signal_awake { s with hist := s.hist ++ [t] } htot
+    simp only [Wake.step]
+    exact ⟨this.2, Or.inr this.1⟩
+  | consumer =>
+    simp only [Wake.step]
+    by_cases h0 : s.awake = 0
+    · rw [if_pos h0]; exact ⟨htot, hp⟩
+    · rw [if_neg h0]
+      cases hm : minOf s.hist with
+      | none => exact ⟨by dsimp only; omega, Or.inl (by simp [poppable, hm])⟩
+      | some m =>
+        simp only []
+        by_cases hf : future s.clock m = true
+        · simp only [hf, if_true]; exact ⟨by omega, Or.inl (by simp [poppable, hm, hf])⟩
+        · simp only [hf, Bool.false_eq_true, if_false]; exact ⟨htot, Or.inr (by omega)⟩
+
+open Wake in
+theorem wake_invariant (s : W) (h : wakeInv s = true) (ops : List WOp) : wakeInv (run true s ops) = true := by
+  induction ops generalizing s with
+  | nil => exact h
+  | cons o os ih => exact ih _ (wake_step s o h)
+
+/-- the tie: the current source does signal from flushBuckets and appendHistoricBucketsToSend (regenerated fact) -/
+theorem wake_sites_now : Wake.flushSignalsNow = true ∧ Wake.appendSignalsNow = true := by decide
+
+open Wake in
+/-- a second saved while still in the future (shutdown flush), read back after restart, both consumers asleep: -/
+example : wakeInv ⟨10, [12], 0, 2⟩ = true := by decide
+open Wake in
+/-- without the signal in flushBuckets nobody re-checks once it stops being in the future: the invariant breaks -/
+example : wakeInv (run false ⟨10, [12], 0, 2⟩ [.second, .second, .second]) = false := by decide
+open Wake in
+example : wakeInv (run true ⟨10, [12], 0, 2⟩ [.second, .second, .second]) = true := by decide
 
 /-! ### agent: clocks and queue order -/
 
